@@ -40,7 +40,7 @@ func checkC01(c *Ctx) {
 	c.Floor("C01.R1", 12)
 	c.Floor("C01.R2", 12)
 	c.Floor("C01.R3", 12)
-	c.Floor("C01.R4", 7)
+	c.Floor("C01.R4", 4)
 	c.Floor("C01.R5", 2)
 }
 
